@@ -1,7 +1,7 @@
 (* C04 — balance predicate over paths, the flattened call chains, and the
    decoding of fault-enumeration cases.  No proofs here. *)
 From Coq Require Import List String Bool Arith ZArith.
-From Verif Require Import lib.Wire c04.Events c04.Model gen.Paths_c04.
+From Verif Require Import lib.Wire c04.Events c04.Model c04.Close gen.Paths_c04.
 Import ListNotations.
 Local Open Scope string_scope.
 
@@ -139,6 +139,7 @@ Local Open Scope Z_scope.
 
 Definition monitor_case (l : list Z) : list Z :=
   match l with
+  | 5 :: r => close_monitor r      (* close race on a real swarm: see Close.v *)
   | [kind; cfg; fk; fi; err; rcl; rcr; dconn; dfd; dmem; dstr; gl] =>
       let ok_raw := (rcl =? 1) && ((rcr =? 1) || (rcr =? 2)) in   (* 2 = not applicable *)
       let ok_scope := (dconn =? 0) && (dfd =? 0) && (dmem =? 0) && (dstr =? 0) in
@@ -163,6 +164,7 @@ Definition end_released (vr : bool) (s : st) : bool :=
 
 Definition conform_case (l : list Z) : list Z :=
   match l with
+  | 5 :: r => close_conform r
   | [kind; cfg; fk; fi; err; rcl; rcr; dconn; dfd; dmem; dstr; gl] =>
       if kind =? 4 then [] else
       match entry_of_kind kind with
